@@ -45,7 +45,7 @@ NAMES_ODD = ['yes', 'null', '123', '0', 'a: b', '- x', 'éü', '"q"', "it's", '#
              'x:1', 'Host:0', 'Host:1', 'träd ☃', '{}', '[a]', 'a,b', '~', 'on', '1e3',
              '0x10', 'multi\nline', 'tab\there', '']
 EXTRAS = [{'color': 'red'}, {'position': {'x': 1, 'y': -2.5}}, {'tags': ['a', 'b'], 'n': 0},
-          {'note': 'yes'}, {'k': None}, {'1': 'one'}]
+          {'note': 'yes'}, {'k': None}, {'1': 'one'}, {'007': 'bond', 'years': {'2024': 1, '-1': 2}}]
 
 
 def _clauses_for(prop):
@@ -169,7 +169,8 @@ def _plain(x):
     if hasattr(x, 'for_json') and not isinstance(x, (dict, list)):
         x = x.for_json()
     if isinstance(x, dict):
-        return {str(k): _plain(v) for k, v in x.items()}
+        # key *types* are kept: '1' and 1 are different keys of an extras dict
+        return {k: _plain(v) for k, v in x.items()}
     if isinstance(x, (list, tuple)):
         return [_plain(v) for v in x]
     if hasattr(x, '_value'):
@@ -967,7 +968,7 @@ class ModelWorld(BaseWorld):
         return {'op': 'foreign', 'fmt': rng.choice(['json', 'json', 'yml']),
                 'order': ids, 'str_keys': rng.random() < 0.5,
                 'shorthand': rng.random() < 0.6, 'scalar_targets': rng.random() < 0.4,
-                'how': 'model'}
+                'extras_first': rng.random() < 0.5, 'how': 'model'}
 
     # ------------------------------------------------------------- execution
     def apply(self, op):
@@ -1614,6 +1615,9 @@ class ModelWorld(BaseWorld):
             if 'extras' in e:
                 if self.guard('association_extras'):
                     e.pop('extras')
+            if op.get('extras_first') and 'extras' in e:
+                e = {'extras': e['extras'], **{k: v for k, v in e.items() if k != 'extras'}}
+                self.count('probe:foreign_extras_listed_first')
             if op.get('scalar_targets'):
                 for k, v in e.items():
                     if k != 'extras':
